@@ -43,6 +43,6 @@ theorem tables_wf : ∀ lines ∈ tables, (tableOf lines).WF := by
   · exact wf_of_check _ (by decide) (by decide)
   · exact wf_of_check _ (by decide) (by decide)
   · exact wf_of_check _ (by decide) (by decide)
-  · exact wf_of_check _ (by decide) (by decide)
+  · exact wf_of_check _ (by decide +kernel) (by decide +kernel)   -- t8 has a 300-character name: kernel evaluation
 
 end Percival.Proofs.GetoptTables
